@@ -110,6 +110,10 @@ def cases(tier, seed):
         for j in range(8):
             add([("Heartbeat", h, "error", 27), ("processor", j, "fail-async", 0)], latency0=(j % 2 == 0), peers=0,
                 dense=True, slowproc=0.7, one_partition=True)
+    # the coordinator fails over: the group moves to another broker while the old one goes silent for the member's
+    # membership requests (nothing else tells the member: no records arrive, so nothing is committed meanwhile)
+    for k in range(6 if tier == "quick" else 60):
+        add([], latency0=False, peers=k % 2, failover=dict(t=[2.4, 3.3, 4.6][k % 3]), quiet=True)
     # a rebalance arriving while a partition consumer's commit is unanswered
     for rep in range(2 if tier == "quick" else 10):
         for h in (2, 3, 4):
@@ -192,6 +196,11 @@ def build(spec):
             act["apply"] = False
         faults.append(dict(api=api, client_id=b"m0", nth=[k], action=act, _word=(api, k, kind, code)))
     sc["faults"] = faults
+    if spec.get("failover"):
+        sc["brokers"] = [1, 2]
+        sc["events"] = [e for e in sc["events"] if e[0] < 1.0] if spec.get("quiet") else sc["events"]
+        sc["events"].append([spec["failover"]["t"], "coordinator_failover", 2])
+        sc["events"].sort(key=lambda e: e[0])
     if spec.get("foreign"):
         fo = spec["foreign"]
         sc["events"].append([fo["t"], "foreign_join", "zz-foreign-1", fo["blob"]])
@@ -398,6 +407,8 @@ def run(spec):
         if now < 14.0:
             return False
         last = max([f[0] for f in tr_.cluster.faults.fired] or [tr_.base]) - tr_.base
+        if spec.get("failover"):
+            last = spec["failover"]["t"]
         pf = [c["t"] - tr_.base for c in tr_.members["m0"].calls if c.get("failed")]
         if pf:
             last = max(last, pf[-1])
@@ -425,6 +436,9 @@ def run(spec):
             fired_keys.add((e["api"], e["action"]["kind"]))
     t_last_fault = max([e["t"] for e in cl.history if "req" in e and e.get("client_id") == b"m0"
                         and e.get("action", {}).get("kind") in ("error", "silent", "drop", "garbage")] or [tr.base])
+    if spec.get("failover"):
+        # the old coordinator stays silent for good: the last change of the environment is the fail-over itself
+        t_last_fault = tr.base + spec["failover"]["t"]
     proc_failed = [c for c in m.calls if c["beh"][0] in ("fail", "fail_async") and c.get("failed")]
     if proc_failed:
         t_last_fault = max(t_last_fault, proc_failed[-1]["t"])
